@@ -19,11 +19,19 @@ var readOnlyCalls = map[string]bool{
 	"getRepo": true, "getBug": true, "ResolveRepo": true, "DefaultRepo": true, "ResolvePrefix": true, "Snapshot": true,
 	"Now": true, "Unix": true, "CleanupOneLine": true, "Cleanup": true, "NewLoadedBug": true, "SearchComment": true,
 	"Bugs": true, "Identities": true, "ResolveComment": true, "CleanupOneLineArray": true, "Id": true, "String": true, "CombinedId": true, "TargetId": true,
-	// upload handler plumbing
+	"len": true, "make": true, "append": true, "string": true,
+}
+
+// plumbing of the upload handler only (in a resolver, Close, New, Set or Write would be mutations)
+var uploadPlumbing = map[string]bool{
 	"Vars": true, "Context": true, "Error": true, "Sprintf": true, "MaxBytesReader": true, "ParseMultipartForm": true,
 	"FormFile": true, "Close": true, "ReadAll": true, "DetectContentType": true, "Marshal": true, "Header": true, "Set": true,
-	"Write": true, "string": true, "len": true, "make": true, "append": true, "Errorf": true, "New": true,
+	"Write": true, "Errorf": true,
 }
+
+var inUpload bool
+
+func isReadOnly(name string) bool { return readOnlyCalls[name] || inUpload && uploadPlumbing[name] }
 
 type step struct{ Kind, Name string }
 
@@ -62,7 +70,7 @@ func programOf(body *ast.BlockStmt) []step {
 			switch {
 			case name == "UserFromCtx":
 				out = append(out, step{"gate", name})
-			case readOnlyCalls[name]:
+			case isReadOnly(name):
 				out = append(out, step{"read", name})
 			default:
 				out = append(out, step{"mutate", name})
@@ -71,6 +79,44 @@ func programOf(body *ast.BlockStmt) []step {
 		})
 	}
 	visit(body)
+	return out
+}
+
+// authoredCalls: for every mutating call of the body, does it pass the value obtained from
+// UserFromCtx (the request's user) as an argument?
+func authoredCalls(body *ast.BlockStmt) [][2]string {
+	user := ""
+	ast.Inspect(body, func(x ast.Node) bool {
+		as, ok := x.(*ast.AssignStmt)
+		if !ok || len(as.Rhs) != 1 || len(as.Lhs) == 0 {
+			return true
+		}
+		if c, ok := as.Rhs[0].(*ast.CallExpr); ok && callName(c) == "UserFromCtx" {
+			if id, ok := as.Lhs[0].(*ast.Ident); ok {
+				user = id.Name
+			}
+		}
+		return true
+	})
+	var out [][2]string
+	ast.Inspect(body, func(x ast.Node) bool {
+		c, ok := x.(*ast.CallExpr)
+		if !ok {
+			return true
+		}
+		name := callName(c)
+		if name == "UserFromCtx" || isReadOnly(name) {
+			return true
+		}
+		passes := "false"
+		for _, a := range c.Args {
+			if id, ok := a.(*ast.Ident); ok && user != "" && id.Name == user {
+				passes = "true"
+			}
+		}
+		out = append(out, [2]string{name, passes})
+		return true
+	})
 	return out
 }
 
@@ -103,9 +149,10 @@ func gateChecked(body *ast.BlockStmt) bool {
 func extractResolvers(c *ctx) {
 	fset := token.NewFileSet()
 	type prog struct {
-		Name    string
-		Checked bool
-		Steps   []step
+		Name     string
+		Checked  bool
+		Steps    []step
+		Authored [][2]string
 	}
 	var progs []prog
 	if f, err := parser.ParseFile(fset, filepath.Join(c.repo, "api/graphql/resolvers/mutation.go"), nil, 0); err == nil {
@@ -119,14 +166,15 @@ func extractResolvers(c *ctx) {
 				continue
 			}
 			name := strings.ToLower(fd.Name.Name[:1]) + fd.Name.Name[1:]
-			progs = append(progs, prog{name, gateChecked(fd.Body), programOf(fd.Body)})
+			progs = append(progs, prog{name, gateChecked(fd.Body), programOf(fd.Body), authoredCalls(fd.Body)})
 		}
 	}
 	if f, err := parser.ParseFile(fset, filepath.Join(c.repo, "api/http/git_file_upload_handler.go"), nil, 0); err == nil {
 		for _, d := range f.Decls {
 			fd, ok := d.(*ast.FuncDecl)
 			if ok && fd.Recv != nil && fd.Name.Name == "ServeHTTP" && fd.Body != nil {
-				progs = append(progs, prog{"upload", gateChecked(fd.Body), programOf(fd.Body)})
+				inUpload = true
+				progs = append(progs, prog{"upload", gateChecked(fd.Body), programOf(fd.Body), authoredCalls(fd.Body)})
 			}
 		}
 	}
@@ -155,6 +203,19 @@ func extractResolvers(c *ctx) {
 			sep = ""
 		}
 		fmt.Fprintf(&b, "  (%q, %v, [%s])%s\n", p.Name, p.Checked, strings.Join(ss, ", "), sep)
+	}
+	b.WriteString("]\n\n/-- (resolver, its mutating calls as (callee, the value returned by UserFromCtx is passed as an argument)) -/\n")
+	b.WriteString("def mutatingCalls : List (String × List (String × Bool)) := [\n")
+	for i, p := range progs {
+		var ss []string
+		for _, s := range p.Authored {
+			ss = append(ss, fmt.Sprintf("(%q, %s)", s[0], s[1]))
+		}
+		sep := ","
+		if i == len(progs)-1 {
+			sep = ""
+		}
+		fmt.Fprintf(&b, "  (%q, [%s])%s\n", p.Name, strings.Join(ss, ", "), sep)
 	}
 	b.WriteString("]\n\n/-- the fields of `type Mutation` in api/graphql/schema/root.graphql -/\n")
 	fmt.Fprintf(&b, "def schemaMutations : List String := %s\n", leanStrList(fields))
